@@ -42,12 +42,13 @@ Outcomes(s) ==
     [] ev.e = "destroy"          -> {ADestroy(s)}
     [] OTHER                     -> {}
 
-Explained(o) == o.r = ev.r /\ Obs(o.s) = ev.s
+GotR == IF ev.e = "destroy" THEN [ev.r EXCEPT !.d = Sorted(@)] ELSE ev.r
+Explained(o) == o.r = GotR /\ Obs(o.s) = ev.s
 
 \* which part of the observation no allowed outcome explains (for the signature)
 Which == LET O == Outcomes(seq) IN
          IF O = {} THEN "unknown_call"
-         ELSE IF \E o \in O : o.r = ev.r THEN "state"
+         ELSE IF \E o \in O : o.r = GotR THEN "state"
          ELSE IF \E o \in O : Obs(o.s) = ev.s THEN "result" ELSE "result+state"
 Expected == LET O == Outcomes(seq) IN IF O = {} THEN [none |-> TRUE] ELSE
             LET o == CHOOSE x \in O : TRUE IN [r |-> o.r, s |-> Obs(o.s)]
